@@ -1214,6 +1214,13 @@ def run_c12(ctx) -> Corr:
                             h.ops.append(("recv", f"2;255;3;0;{wake_t};5", (False, gw.CANCEL if int(t) == 2 else True), gw.DEFAULT_TIME))
                         wakes = [("recv", f"{n};255;3;0;{wake_t};5", (), gw.DEFAULT_TIME) for n in (1, 2)]
                         if cmd == 1 and buffer and not fault:
+                            # the held message must survive other traffic for the very same (node, child, type): an
+                            # unbuffered send, the node's own value request (answered with the stored value), its own report
+                            for between in (("send", (2, 1, 1, 0, int(t), "9"), False, ()),
+                                            ("recv", f"2;1;2;0;{int(t)};", (), gw.DEFAULT_TIME),
+                                            ("recv", f"2;1;1;0;{int(t)};8", (), gw.DEFAULT_TIME)):
+                                hists.append(Hist(v, True, h.preload, h.ops + [between] + wakes))
+                        if cmd == 1 and buffer and not fault:
                             # the same, with the gateway context left and entered again (a reconnect) before the wakes
                             hists.append(Hist(v, True, h.preload, h.ops + [gw.SESSION] + wakes))
                         h.ops.extend(wakes)
@@ -1293,6 +1300,10 @@ def older_types_history(rng, v_old: str, cross: bool, avoid_hb: bool, length: in
             if rng.random() < 0.5:
                 h.preload.append(("val", n, c, 0, "7"))
     known_nodes = list(nodes)
+
+    def ack() -> int:        # a node may ask for an echo of anything it sends
+        return 1 if rng.random() < 0.3 else 0
+
     for _ in range(length):
         r = rng.random()
         n = rng.choice(known_nodes if cross else known_nodes + [3])
@@ -1307,17 +1318,17 @@ def older_types_history(rng, v_old: str, cross: bool, avoid_hb: bool, length: in
         if r < 0.1:
             line = f"{n};255;0;0;17;2.0"
         elif r < 0.2:
-            line = f"{n};{c};0;0;6;d"
+            line = f"{n};{c};0;{ack()};6;d"
         elif r < 0.4:
-            line = f"{n};{c};1;0;{rng.choice((0, 2))};{rng.randint(0, 9)}"
+            line = f"{n};{c};1;{ack()};{rng.choice((0, 2))};{rng.randint(0, 9)}"
         elif r < 0.5:
-            line = f"{n};{c};2;0;{rng.choice((0, 2))};"
+            line = f"{n};{c};2;{ack()};{rng.choice((0, 2))};"
         elif r < 0.8:
             t = rng.choice(internal)
             payload = {0: rng.choice(["50", "abc", "150"]), 22: rng.choice(["5", "x"]), 3: ""}.get(t, "1")
-            line = f"{rng.choice((n, 255)) if t == 3 else n};{rng.choice((255, 4)) if t == 3 else 255};3;0;{t};{payload}"
+            line = f"{rng.choice((n, 255)) if t == 3 else n};{rng.choice((255, 4)) if t == 3 else 255};3;{ack()};{t};{payload}"
         elif r < 0.86:
-            line = f"{n};255;4;0;{rng.choice([int(x) for x in to['stream']])};0"
+            line = f"{n};255;4;{ack()};{rng.choice([int(x) for x in to['stream']])};0"
         elif r < 0.9:
             # lines the codec must judge alike under every version: ill-formed ones, and internal / stream types on a
             # child id other than the system child (accepted for id request / response only)
